@@ -113,7 +113,20 @@ def rule_domains(ck, repo, R, only=None):
             n += 1
             ok = True
             if got is None:
-                raise AnalysisError(f'{fq}: variable `{name}` expected by the domain rule is no longer inferable')
+                # the local may have been renamed: any inferred variable of the expected type keeps the rule non-vacuous
+                alt = None
+                for k, v in w.env.items():
+                    try:
+                        unify(v, tf())
+                        if repr(v) == repr(tf()):
+                            alt = k
+                            break
+                    except Mismatch:
+                        continue
+                if alt is None:
+                    raise AnalysisError(f'{fq}: variable `{name}` expected by the domain rule is no longer inferable')
+                ck.ok(R, f'{f.qualname}:{name}', f'(as `{alt}`) {w.env[alt]!r}', nontrivial=False)
+                continue
             try:
                 unify(got, tf())
             except Mismatch as m:
